@@ -44,6 +44,8 @@ func runC05(c *Ctx) {
 	}
 	c.Rule("C05.timer", "the send timer is armed only around a Send: stopped after every Send and whenever the sender waits for the next item, so a POLL stream that idles between triggers is not ended by a stale timer")
 	sendTimerDiscipline(c, "C05.timer")
+	c.Borrow("C11", map[string]string{"C11.token": "C05.wakeup", "C11.wait-set": "C05.wait-set"}, "a lost wake-up leaves the sender asleep before the sync marker of a poll round: the poll is never answered")
+	c.Borrow("C08", map[string]string{"C08.dup-clone": "C05.dup-clone"}, "a duplicate count written into the cached notification is returned by every later ONCE/POLL as a value no writer stored")
 	c.Rule("C05.once", "ONCE: Subscribe starts exactly one goroutine whose body is processSubscription followed unconditionally by queue.Close(), plus the sender; no registration with the match tree. sendStreamingResults: queue closed => errC <- nil and return without another Send")
 	c.Rule("C05.drain", "coalesce.Next never reports closed while items are pending (closed arm with Len()==1 retries next())")
 	c.Rule("C05.poll", "processPollingSubscription: a walk precedes the loop; after each successful Recv exactly one walk happens before the next Recv; io.EOF => errC <- nil, return; other error => errC <- that error, return")
